@@ -206,8 +206,12 @@ def t_fixed_poi_fit(T):
             T.fail(f"{key}#fwd.fit-once{sfx}", f"{len(fc)} fit calls", kind="forwarding")
             continue
         c = fc[0]
-        T.ob_path(eng, f"{key}#fwd.data-model-bounds-kwargs{sfx}", r, eng.veq([c.args[0], c.args[1], c.args[3], c.kwargs], [a["data"], a["pdf"], a["par_bounds"], kw]), kind="forwarding")
-        ip, fp = c.args[2], c.args[4]
+        # arguments are read by parameter name or position (the call may be written either way); a parameter that is not passed is None
+        named = ("data", "pdf", "init_pars", "par_bounds", "fixed_params")
+        got = {n: c.arg(i, n, None) for i, n in enumerate(named)}
+        rest = {k2: v for k2, v in c.kwargs.items() if k2 not in named}
+        T.ob_path(eng, f"{key}#fwd.data-model-bounds-kwargs{sfx}", r, eng.veq([got["data"], got["pdf"], got["par_bounds"], rest], [a["data"], a["pdf"], a["par_bounds"], kw]), kind="forwarding")
+        ip, fp = got["init_pars"], got["fixed_params"]
         if not (isinstance(ip, SeqV) and isinstance(fp, SeqV)):
             T.fail(f"{key}#post.poi-set-and-fixed{sfx}", "init_pars / fixed_params passed on are not fresh lists")
             continue
@@ -603,12 +607,25 @@ def replay(r):
     if "scipy_optimizer._minimize" in r["name"]:
         return _replay_scipy()
     if "npars" not in meta:
+        if "common.py::shim" in r["name"] or "_make_stitch_pars" in r["name"]:
+            # no instance of its own (e.g. the clause produced no VC): a default battery of layouts
+            out = {"reproduced": False, "disagreements": {}}
+            for npars, fixed, st in ((2, [0], True), (3, [1], True), (3, [0, 2], True), (2, [], True), (2, [0], False), (3, [2], True)):
+                res = _replay_shim_case(npars, fixed, st)
+                if res["reproduced"]:
+                    out["reproduced"] = True
+                    out["disagreements"][f"npars={npars},fixed={fixed},stitch={st}"] = res["disagreements"]
+            return out
         return None
+    return _replay_shim_case(meta["npars"], meta["fixed"], meta["do_stitch"])
+
+
+def _replay_shim_case(npars, fixed, do_stitch):
     import numpy as np
     import pyhf
     from pyhf.optimize.common import shim
     pyhf.set_backend("numpy")
-    npars, fixed, do_stitch = meta["npars"], meta["fixed"], meta["do_stitch"]
+    meta = {"npars": npars, "fixed": fixed, "do_stitch": do_stitch}
 
     class Cfg:
         pass
@@ -619,9 +636,18 @@ def replay(r):
     init = [10.0 + i for i in range(npars)]
     bounds = [(float(i), 100.0 + i) for i in range(npars)]
     fixed_vals = [(i, 1000.0 + i) for i in fixed]
-    kwargs, stitch = shim(lambda p, d, m: p, [1.0], Pdf(), init, bounds, fixed_vals, do_grad=False, do_stitch=do_stitch)
+    the_pdf = Pdf()
+    kwargs, stitch = shim(lambda p, d, m: p, [1.0], the_pdf, init, bounds, fixed_vals, do_grad=False, do_stitch=do_stitch)
     free = [i for i in range(npars) if i not in fixed]
     bad = {}
+    if do_stitch and fixed:
+        # history: a second call on the SAME model object with other fixed values must stitch the new values
+        fv2 = [(i, 2000.0 + i) for i in fixed]
+        _, stitch2 = shim(lambda p, d, m: p, [1.0], the_pdf, init, bounds, fv2, do_grad=False, do_stitch=True)
+        full2 = list(np.asarray(stitch2(np.asarray([500.0 + t for t in range(len(free))]))))
+        want2 = [2000.0 + i if i in fixed else 500.0 + free.index(i) for i in range(npars)]
+        if full2 != want2:
+            bad["stitch_pars of a second call with other fixed values"] = {"got": full2, "oracle": want2}
     if do_stitch:
         if list(kwargs["x0"]) != [init[i] for i in free] or [tuple(b) for b in kwargs["bounds"]] != [bounds[i] for i in free] or kwargs["fixed_vals"] != []:
             bad["minimizer_kwargs"] = {k: repr(v) for k, v in kwargs.items() if k != "func"}
@@ -663,6 +689,8 @@ def _replay_mle():
         out = mle.fixed_poi_fit(7.0, "DATA", Pdf(), init, bounds, fixed, return_fitted_val=True)
         if init != [1.5, 2.5, 3.5] or fixed != [True, False, False]:
             bad["caller lists mutated"] = (init, fixed)
+        if rec.get("bounds") != [(0, 9), (0, 9), (0, 9)]:
+            bad["fixed_poi_fit bounds"] = {"passed": [(0, 9)] * 3, "used by the fit": rec.get("bounds")}
         if rec.get("init") != [1.5, 7.0, 3.5] or sorted(rec.get("fixed_vals", [])) != [(0, 1.5), (1, 7.0)] or rec.get("kw") != {"return_fitted_val": True} or out != "RESULT":
             bad["fixed_poi_fit"] = {k: rec.get(k) for k in ("init", "fixed_vals", "kw")}
         rec.clear()
